@@ -2,6 +2,7 @@
  0 add_node n attrs | 1 add_nodes_from ns attrs | 2 add_edge u v et attrs | 3 add_edges_from [[u,v,attrs]..] et
  4 remove_node n | 5 remove_nodes_from ns | 6 remove_edge u v et | 7 remove_edges_from [[u,v]..] et | 8 clear_edges et
  9 add_edge_type name kind [[u,v]..] | 10 remove_edge_type name | 11 graph.update attrs | 12 copy | 13 subgraph ns
+ 14 clear
  et: 0 directed 1 bidirected 2 undirected 3 extra 4 "all"; kind: 0 nx.Graph 1 nx.DiGraph; attrs [[key, value]..]."""
 import itertools
 
@@ -13,12 +14,14 @@ ALPHABET = [
     [2, 0, 0, 1, 0, []],                # add_edge(0,1,'directed')
     [2, 0, 0, 1, ALL, [[0, 2]]],        # add_edge(0,1,'all', a0=2)
     [2, 0, 1, 0, 3, []],                # add_edge(1,0,'extra')
+    [2, 0, 1, 1, ALL, []],              # add_edge(1,1,'all')  (self loop)
     [3, 0, [[1, 2, [[1, 3]]]], 1],      # add_edges_from([(1,2,{a1:3})],'bidirected')
     [4, 0, 1],                          # remove_node(1)
     [6, 0, 0, 1, 0],                    # remove_edge(0,1,'directed')
     [6, 0, 0, 1, ALL],                  # remove_edge(0,1,'all')
     [7, 0, [[1, 0]], ALL],              # remove_edges_from([(1,0)],'all')
     [8, 0, ALL],                        # clear_edges()
+    [14, 0],                            # clear()
     [9, 0, 3, 0, []],                   # add_edge_type(nx.Graph(), 'extra')
     [9, 0, 3, 1, [[1, 0]]],             # add_edge_type(nx.DiGraph([(1,0)]), 'extra')
     [9, 0, 0, 1, [[0, 1]]],             # add_edge_type(nx.DiGraph([(0,1)]), 'directed')
@@ -62,6 +65,8 @@ def random_history(rng, cls, length, N=4, max_objs=4):
     def pair():
         u = node()
         v = node()
+        if rng.random() < 0.07:
+            return u, u          # self loop (legal in networkx; degree counts it twice)
         while v == u:
             v = node()
         return u, v
@@ -121,8 +126,10 @@ def random_history(rng, cls, length, N=4, max_objs=4):
             last_removed = [2, o, u, v, t, _attrs(rng)]
         elif r < 0.57:
             op = [7, o, [list(pair()) for _ in range(rng.randint(1, 3))], sel(o)]
-        elif r < 0.60:
+        elif r < 0.59:
             op = [8, o, sel(o, p_all=0.5)]
+        elif r < 0.60:
+            op = [14, o]
         elif r < 0.70:
             nm = rng.randrange(4)
             es = [list(pair()) for _ in range(rng.choice([0, 0, 1, 2]))]
